@@ -547,9 +547,13 @@ fn raw_string<'a>() -> impl Parser<'a, ParserInput<'a>, Literal, ParserError<'a>
                 .to_slice(),
         )
         .then(choice((just('\''), just('"'))))
-        .map(
-            |(((_, _open_quote), s), _close_quote): (((&str, char), &str), char)| {
-                Literal::RawString(s.to_string())
+        .try_map(
+            |(((_, open_quote), s), close_quote): (((&str, char), &str), char), span| {
+                // the string ends at the quote it started with
+                if open_quote != close_quote {
+                    return Err(Simple::new(Some(close_quote.into()), span));
+                }
+                Ok(Literal::RawString(s.to_string()))
             },
         )
 }
